@@ -26,6 +26,7 @@ type Res struct {
 	Loc       string   `json:"loc,omitempty"`        // redirect target
 	Assets    []string `json:"assets,omitempty"`     // embedded resources (html: img src, json: string values, m3u8: segments)
 	Links     []string `json:"links,omitempty"`      // html: <a href>
+	HdrLinks  []string `json:"hdr_links,omitempty"`  // html: URLs announced in a Link response header (rel=next ...)
 	FailFirst int      `json:"fail_first,omitempty"` // the first N attempts fail ...
 	FailKind  int      `json:"fail_kind,omitempty"`  // ... with this status (0 = transport error); -1 = always fail
 }
@@ -102,6 +103,13 @@ func (n *Net) RoundTrip(req *http.Request) (*http.Response, error) {
 			default:
 				status = 200
 				body, hdr = render(r)
+				if len(r.HdrLinks) > 0 {
+					var parts []string
+					for i, l := range r.HdrLinks {
+						parts = append(parts, fmt.Sprintf("<%s>; rel=\"%s\"", l, []string{"next", "prev", "alternate"}[i%3]))
+					}
+					hdr.Set("Link", strings.Join(parts, ", "))
+				}
 			}
 		}
 	} else {
